@@ -88,6 +88,24 @@ Theorem C05_deny_unguarded_refuted :
 Proof. vm_compute. repeat split; reflexivity. Qed.
 Print Assumptions C05_deny_unguarded_refuted.
 
+(* the second defect (reported 2026-10-02, reproduced): the except clauses of SocketServer_Multiplex.handleRequest
+   formatted the exception they had caught with the % operator, under no protection.  With that pre-fix entry
+   (add_mux_format) the check fails, and a method raising a ProtocolError subclass whose __str__ raises (no reply,
+   re-raised as a communication error, caught by the catch-all, RuntimeError out of its log line) ends the loop *)
+Definition C05_format_witness : list event :=
+  [ {| e_conn := 0; e_kind := EConnect; e_script := [] |};
+    {| e_conn := 1; e_kind := EConnect; e_script := [] |};
+    {| e_conn := 1; e_kind := ERequest {| q_oneway := false; q_callback := false; q_stream := false |};
+       e_script := [ {| f_fn := FHandleRequest; f_site := asite tables FHandleRequest KMethod 1; f_recv := false;
+                        f_exc := "BadStrProto" :: mro tables "errors.ProtocolError" |};
+                     {| f_fn := FMuxHandleReq; f_site := None; f_recv := false; f_exc := mro tables "RuntimeError" |} ] |} ].
+Theorem C05_mux_format_unguarded_refuted :
+  containment_ok (add_mux_format tables) = false /\
+  wf_events C05_format_witness = true /\
+  alive (fst (run (add_mux_format tables) SMux 4 C05_format_witness)) = false.
+Proof. vm_compute. repeat split; reflexivity. Qed.
+Print Assumptions C05_mux_format_unguarded_refuted.
+
 (* non-vacuity: there are paths; the same history on the current tables keeps the loop alive, answers
    nothing on connection 1 and closes it; a request whose method raises an unserialisable exception
    while the peer has reset ends only that connection and the worker returns *)
@@ -98,6 +116,9 @@ Example C05_nonvacuous_deny :
   ({| alive := true; busy := 1; live := [0] |},
    [ {| o_conn := 0; o_reply := Some ConnOk; o_open := true; o_hook := false; o_left := 0 |};
      {| o_conn := 1; o_reply := None; o_open := false; o_hook := false; o_left := 0 |} ]).
+Proof. vm_compute. reflexivity. Qed.
+Example C05_nonvacuous_format :     (* the same history on the current tables: only connection 1 ends *)
+  fst (run tables SMux 4 C05_format_witness) = {| alive := true; busy := 0; live := [0] |}.
 Proof. vm_compute. reflexivity. Qed.
 Example C05_nonvacuous_request :
   let boom := ["Boom"; "Exception"; "BaseException"] in
